@@ -463,10 +463,13 @@ def activity(isotope, mass, env, exposure, rest_times):
             # Column W: L/(L-nvs1+nvs2)
             W = lam/(lam-flux*initialXS*3600*1e-24+env.fluence*effectiveXS*3600*1e-24)
             # Column X: V#*[e(-S#)-e(U#)]
-            if abs(U) < 1e-10 and abs(V) < 1e-10:
-                precision_correction = W * (V-U+(V+U)/2)
+            # Note: exp(-U) - exp(-V) written with expm1 of the difference keeps
+            # full precision for small U, V; the series used before for
+            # U, V < 1e-10 was wrong (it gave 1.5 V for U << V).
+            if U <= V:
+                precision_correction = -W * exp(-U) * expm1(U-V)
             else:
-                precision_correction = W * (exp(-U)-exp(-V))
+                precision_correction = W * exp(-V) * expm1(V-U)
 
             activity = root*precision_correction
             if activity < 0:
